@@ -6,9 +6,10 @@ import ast, json, os, sys
 HERE = os.path.dirname(os.path.dirname(os.path.abspath(__file__)))
 sys.path.insert(0, HERE)
 from pathlib import Path
-from sa.alpha import alpha, functions_of
+from sa.alpha import alpha, functions_of, inlined_key
 root = Path(sys.argv[1] if len(sys.argv) > 1 else "/repo")
 out = {}
+sources = {}
 for p in sorted((root / "pynetdicom").rglob("*.py")):
     parts = p.relative_to(root).with_suffix("").parts
     if "tests" in parts or "benchmarks" in parts:
@@ -22,11 +23,22 @@ for p in sorted((root / "pynetdicom").rglob("*.py")):
     from sa.canon import canonicalise
     canonicalise(tree)
     rec = {"__sha__": hashlib.sha256(src.encode()).hexdigest()}
+    srcs = {}
     for q, fn in functions_of(tree):
         key, order = alpha(fn)
-        if order:
-            rec[q] = {"key": key, "names": order}
+        body = fn.body[1:] if fn.body and isinstance(fn.body[0], ast.Expr) and isinstance(fn.body[0].value, ast.Constant) and isinstance(fn.body[0].value.value, str) else fn.body
+        if not body:
+            continue
+        rec[q] = {"key": key, "names": order, "ikey": inlined_key(fn)}
+        saved = fn.body
+        fn.body = body
+        srcs[q] = ast.unparse(fn)
+        fn.body = saved
     if len(rec) > 1:
         out[name] = rec
+        sources[name] = srcs
+out["__python__"] = {"version": "%d.%d" % sys.version_info[:2]}
 json.dump(out, open(os.path.join(HERE, "spec", "alpha_reference.json"), "w"), indent=0, sort_keys=True)
-print(sum(len(v) - 1 for v in out.values()), "functions with locals in", len(out), "modules")
+import gzip
+open(os.path.join(HERE, "spec", "func_reference.json.gz"), "wb").write(gzip.compress(json.dumps(sources, sort_keys=True).encode(), mtime=0))
+print(sum(len(v) - 1 for k, v in out.items() if k != '__python__'), "functions with locals in", len(out), "modules")
